@@ -1,1 +1,722 @@
-fn main() { println!("hello"); }
+//! simcheck: deterministic-simulation worker for tinylfu-cached.
+//!
+//!   simcheck run --property C01 --seed S --runs N --offset W --stride K --from I --out FILE
+//!   simcheck replay FILE [--lenient] [--quiet]
+//!
+//! Exit codes: 0 = held on everything explored; 1 = violation (replay file written);
+//! 2 = harness error (including replay divergence); 3 = the worker had to stop after a run whose
+//! failure is a listed known finding (panic / deadlock kill the execution engine's state): the
+//! orchestrator restarts it at `next_index`.
+mod exec;
+mod gen;
+mod hist;
+mod hx;
+mod oracle;
+mod props;
+mod rng;
+mod scenario;
+mod sched;
+
+use exec::{RunOutput, Violation};
+use rng::{hash_bytes, mix, Rng};
+use scenario::*;
+use sched::{Driver, SchedRecord, SimScheduler};
+use serde::{Deserialize, Serialize};
+use std::cell::RefCell;
+use std::collections::{BTreeMap, BTreeSet};
+use std::panic;
+
+#[derive(Serialize, Deserialize, Clone, Debug)]
+pub struct KnownFinding {
+    pub id: String,
+    pub property: String,
+    pub signature: String,
+    pub status: String,
+    #[serde(default)]
+    pub description: String,
+    #[serde(default)]
+    pub witness: String,
+}
+
+#[derive(Serialize, Deserialize, Clone, Debug)]
+pub struct ReplayFile {
+    pub format: u32,
+    pub property: String,
+    pub signature: String,
+    pub message: String,
+    pub event: u64,
+    pub verif_seed: u64,
+    pub run_index: u64,
+    pub run_seed: u64,
+    pub tree: String,
+    pub scenario: Scenario,
+    /// hash of the full normalised history of the failing run (replay must reach the same)
+    pub history_hash: String,
+    pub minimised: bool,
+}
+
+#[derive(Serialize, Deserialize, Default, Clone, Debug)]
+pub struct Aggregate {
+    pub property: String,
+    pub evaluations: u64,
+    pub completed: u64,
+    pub steps: u64,
+    pub context_switches: u64,
+    pub preemptions: u64,
+    pub sim_time_ns: u128,
+    pub history_events: u64,
+    pub per_stratum: BTreeMap<String, u64>,
+    pub per_mode: BTreeMap<String, u64>,
+    pub nontrivial_runs: u64,
+    pub probes: BTreeMap<String, u64>,
+    pub faults: BTreeMap<String, u64>,
+    pub interleavings: BTreeSet<u64>,
+    pub histories: BTreeSet<u64>,
+    pub nontrivial_histories: BTreeSet<u64>,
+    pub samples: Vec<serde_json::Value>,
+    pub violations: Vec<serde_json::Value>,
+    pub known_hits: BTreeMap<String, u64>,
+    pub next_index: u64,
+    pub finished: bool,
+    pub determinism_digest: u64,
+}
+
+const HASH_CAP: usize = 400_000;
+
+struct PanicInfo {
+    message: String,
+    file: String,
+    line: u32,
+    task: Option<usize>,
+    role: String,
+}
+
+thread_local! {
+    static PANIC: RefCell<Option<PanicInfo>> = RefCell::new(None);
+}
+
+fn install_panic_hook() {
+    panic::set_hook(Box::new(|info| {
+        let message = if let Some(s) = info.payload().downcast_ref::<&str>() {
+            s.to_string()
+        } else if let Some(s) = info.payload().downcast_ref::<String>() {
+            s.clone()
+        } else {
+            "<non-string panic>".to_string()
+        };
+        let (file, line) = info.location().map(|l| (l.file().to_string(), l.line())).unwrap_or_default();
+        let task = simsync::sim::current_task();
+        let role = match task {
+            Some(0) => "main".to_string(),
+            Some(t) => simsync::sim::role_of(t).map(|r| r.name().to_string()).unwrap_or_else(|| "caller".to_string()),
+            None => "engine".to_string(),
+        };
+        PANIC.with(|p| {
+            let mut p = p.borrow_mut();
+            if p.is_none() {
+                *p = Some(PanicInfo { message, file, line, task, role });
+            }
+        });
+    }));
+}
+
+fn norm_file(f: &str) -> String {
+    if let Some(pos) = f.find("repo/src/") {
+        return f[pos + 5..].to_string();
+    }
+    if let Some(pos) = f.find("/library/") {
+        return f[pos + 1..].to_string();
+    }
+    if let Some(pos) = f.find("shims/") {
+        return f[pos..].to_string();
+    }
+    if let Some(pos) = f.rfind("registry/src/") {
+        let rest = &f[pos + 13..];
+        return rest.split_once('/').map(|x| x.1.to_string()).unwrap_or_else(|| rest.to_string());
+    }
+    f.to_string()
+}
+
+fn msg_class(m: &str) -> String {
+    let mut out = String::new();
+    let mut last_hash = false;
+    for c in m.chars() {
+        if c.is_ascii_digit() {
+            if !last_hash {
+                out.push('#');
+                last_hash = true;
+            }
+        } else {
+            out.push(c);
+            last_hash = false;
+        }
+        if out.len() >= 70 {
+            break;
+        }
+    }
+    out.replace('\n', " ")
+}
+
+struct Work {
+    property: String,
+    verif_seed: u64,
+    runs: u64,
+    offset: u64,
+    stride: u64,
+    next: u64,
+    strata: Vec<props::Stratum>,
+    total_share: u32,
+    known: Vec<KnownFinding>,
+    replays_dir: String,
+    tree: String,
+}
+
+struct Current {
+    index: u64,
+    run_seed: u64,
+}
+
+struct Shared {
+    work: Work,
+    agg: Aggregate,
+    cur: Option<Current>,
+    stop: bool,
+    found: Option<(Violation, String)>,
+    replay_mode: Option<ReplayFile>,
+    replay_result: Option<(Vec<Violation>, u64, Option<String>)>,
+}
+
+thread_local! {
+    static SHARED: RefCell<Option<Shared>> = RefCell::new(None);
+}
+
+fn property_code(p: &str) -> u64 {
+    hash_bytes(p.as_bytes())
+}
+
+fn history_hash(out: &RunOutput) -> u64 {
+    let bytes = serde_json::to_vec(&out.log).unwrap_or_default();
+    hash_bytes(&bytes)
+}
+
+fn outcome_hash(out: &RunOutput) -> u64 {
+    // outcome-bearing part of the history: returns, ack observations, final reads, observations
+    let mut acc: Vec<u8> = vec![];
+    for it in &out.log {
+        match it {
+            hist::Item::Return { .. } | hist::Item::AckObserved { .. } | hist::Item::FinalRead { .. } | hist::Item::Polled { .. } => {
+                acc.extend(serde_json::to_vec(it).unwrap_or_default());
+            }
+            hist::Item::Obs(o) => {
+                acc.extend(format!("{}:{}:{:?}", o.label, o.weight_used, o.stats).into_bytes());
+            }
+            _ => {}
+        }
+    }
+    hash_bytes(&acc)
+}
+
+fn schedule_hash(rec: &SchedRecord) -> u64 {
+    // run-length encoded task-choice sequence
+    let mut acc: Vec<u8> = vec![];
+    let mut prev: Option<u32> = None;
+    let mut n: u32 = 0;
+    for c in &rec.choices {
+        if Some(*c) == prev {
+            n += 1;
+        } else {
+            if let Some(p) = prev {
+                acc.extend(p.to_le_bytes());
+                acc.extend(n.to_le_bytes());
+            }
+            prev = Some(*c);
+            n = 1;
+        }
+    }
+    if let Some(p) = prev {
+        acc.extend(p.to_le_bytes());
+        acc.extend(n.to_le_bytes());
+    }
+    hash_bytes(&acc)
+}
+
+fn sample_of(sc: &Scenario) -> serde_json::Value {
+    serde_json::json!({
+        "stratum": sc.stratum,
+        "family": sc.family,
+        "config": sc.cfg,
+        "scheduler": {"mode": sc.sched.mode, "stalls": sc.sched.stalls},
+        "programs": sc.threads.iter().map(|p| p.iter().map(|o| o.short()).collect::<Vec<_>>()).collect::<Vec<_>>(),
+    })
+}
+
+fn known_match<'a>(known: &'a [KnownFinding], v: &Violation) -> Option<&'a KnownFinding> {
+    known.iter().find(|k| k.status == "open" && k.property == v.property && k.signature == v.signature)
+}
+
+fn write_replay(sh: &Shared, sc: &Scenario, rec: &SchedRecord, v: &Violation, hh: u64, index: u64, run_seed: u64) -> String {
+    let mut sc = sc.clone();
+    sc.sched.choices = Some(rec.choices.clone());
+    sc.sched.strict = true;
+    let rf = ReplayFile {
+        format: 1,
+        property: sh.work.property.clone(),
+        signature: v.signature.clone(),
+        message: v.message.clone(),
+        event: v.event,
+        verif_seed: sh.work.verif_seed,
+        run_index: index,
+        run_seed,
+        tree: sh.work.tree.clone(),
+        scenario: sc,
+        history_hash: format!("{:016x}", hh),
+        minimised: false,
+    };
+    let _ = std::fs::create_dir_all(&sh.work.replays_dir);
+    let path = format!("{}/{}-{}-{:016x}.json", sh.work.replays_dir, sh.work.property, index, run_seed);
+    std::fs::write(&path, serde_json::to_string_pretty(&rf).unwrap()).expect("write replay file");
+    path
+}
+
+/// Fold a finished run into the aggregate; returns true if the worker must stop.
+fn finish_run(sh: &mut Shared) {
+    let cur = match sh.cur.take() {
+        Some(c) => c,
+        None => return,
+    };
+    let prepared = exec::take_current().expect("prepared scenario");
+    let mut sc = prepared.scenario;
+    let out = exec::take_output();
+    let rec = sched::take_record();
+    if !out.recorded_ops.is_empty() {
+        if sc.threads.is_empty() {
+            sc.threads.push(vec![]);
+        }
+        sc.threads[0] = out.recorded_ops.clone();
+    }
+    let verdict = props::judge(&sh.work.property, &sc, &out, &rec);
+    let hh = history_hash(&out);
+
+    if let Some(rf) = &sh.replay_mode {
+        let _ = rf;
+        sh.replay_result = Some((verdict.violations.clone(), hh, rec.diverged.clone()));
+        sh.stop = true;
+        return;
+    }
+
+    let a = &mut sh.agg;
+    a.evaluations += 1;
+    if out.completed {
+        a.completed += 1;
+    }
+    a.steps += rec.steps;
+    a.context_switches += rec.context_switches;
+    a.preemptions += rec.preemptions;
+    a.history_events += out.log.len() as u64;
+    a.determinism_digest = mix(&[a.determinism_digest, cur.index, hh, schedule_hash(&rec)]);
+    *a.per_stratum.entry(sc.stratum.clone()).or_insert(0) += 1;
+    *a.per_mode.entry(format!("{:?}", sc.sched.mode).split(|c| c == ' ' || c == '{').next().unwrap_or("").to_string()).or_insert(0) += 1;
+    // simulated time covered = sum of clock advances
+    let hx_adv: u128 = out
+        .log
+        .iter()
+        .filter_map(|it| match it {
+            hist::Item::Invoke { op: Op::Advance(d), .. } => Some(d.to_std().as_nanos()),
+            hist::Item::Invoke { op: Op::Rotate, .. } => Some(sc.cfg.shards as u128 * 1_000_000_000),
+            _ => None,
+        })
+        .sum();
+    a.sim_time_ns += hx_adv;
+    for (k, n) in &out.probes {
+        if k.starts_with("fault.") {
+            *a.faults.entry(k[6..].to_string()).or_insert(0) += n;
+        } else {
+            *a.probes.entry(k.to_string()).or_insert(0) += n;
+        }
+    }
+    for (role, n) in &rec.stall_steps {
+        *a.faults.entry(format!("stall_{}_steps", role)).or_insert(0) += n;
+    }
+    if !rec.stall_steps.is_empty() {
+        *a.faults.entry("stall_runs".to_string()).or_insert(0) += 1;
+    }
+    for (role, n) in &rec.forced_breaks {
+        *a.probes.entry(format!("stall_forced_break_{}", role)).or_insert(0) += n;
+    }
+    let mut seen: BTreeSet<&str> = BTreeSet::new();
+    for p in &verdict.probes {
+        if seen.insert(p) {
+            if let Some(f) = p.strip_prefix("fault.") {
+                *a.faults.entry(f.to_string()).or_insert(0) += 1;
+            } else {
+                *a.probes.entry(p.to_string()).or_insert(0) += 1;
+            }
+        }
+    }
+    if a.interleavings.len() < HASH_CAP {
+        a.interleavings.insert(schedule_hash(&rec));
+    }
+    let oh = outcome_hash(&out);
+    if a.histories.len() < HASH_CAP {
+        a.histories.insert(oh);
+    }
+    if verdict.nontrivial {
+        a.nontrivial_runs += 1;
+        if a.nontrivial_histories.len() < HASH_CAP {
+            a.nontrivial_histories.insert(mix(&[oh, schedule_hash(&rec)]));
+        }
+    }
+    if a.samples.len() < 3 && (verdict.nontrivial || a.evaluations > 50) {
+        a.samples.push(sample_of(&sc));
+    }
+
+    if let Some(d) = &rec.diverged {
+        eprintln!("HARNESS-ERROR: schedule diverged outside replay: {}", d);
+        std::process::exit(2);
+    }
+
+    for v in &verdict.violations {
+        if let Some(k) = known_match(&sh.work.known, v) {
+            *sh.agg.known_hits.entry(k.id.clone()).or_insert(0) += 1;
+            continue;
+        }
+        let path = write_replay(sh, &sc, &rec, v, hh, cur.index, cur.run_seed);
+        sh.agg.violations.push(serde_json::json!({
+            "property": v.property, "signature": v.signature, "message": v.message,
+            "run_index": cur.index, "run_seed": cur.run_seed, "replay": path,
+        }));
+        sh.found = Some((v.clone(), path));
+        sh.stop = true;
+        break;
+    }
+}
+
+struct WorkDriver;
+
+impl Driver for WorkDriver {
+    fn next_execution(&mut self) -> bool {
+        SHARED.with(|s| {
+            let mut g = s.borrow_mut();
+            let sh = g.as_mut().expect("shared");
+            finish_run(sh);
+            if sh.stop {
+                return false;
+            }
+            if let Some(rf) = &sh.replay_mode {
+                let sc = rf.scenario.clone();
+                let online = props::online_for(&sc);
+                sched::arm(&sc.sched);
+                exec::set_current(exec::Prepared { scenario: sc, online });
+                sh.cur = Some(Current { index: rf.run_index, run_seed: rf.run_seed });
+                return true;
+            }
+            // next index of this worker's slice
+            let w = &mut sh.work;
+            while w.next < w.runs && w.next % w.stride != w.offset {
+                w.next += 1;
+            }
+            if w.next >= w.runs {
+                return false;
+            }
+            let index = w.next;
+            w.next += 1;
+            sh.agg.next_index = w.next;
+            let run_seed = mix(&[w.verif_seed, property_code(&w.property), index]);
+            let mut rng = Rng::new(run_seed);
+            // stratum by interleaved shares
+            let mut slot = (index % w.total_share as u64) as u32;
+            let mut chosen = 0usize;
+            for (i, st) in w.strata.iter().enumerate() {
+                if slot < st.share {
+                    chosen = i;
+                    break;
+                }
+                slot -= st.share;
+            }
+            let st = &w.strata[chosen];
+            let prepared = (st.gen)(&mut rng, st.name);
+            sched::arm(&prepared.scenario.sched);
+            exec::set_current(prepared);
+            sh.cur = Some(Current { index, run_seed });
+            true
+        })
+    }
+}
+
+fn shuttle_config(max_steps: u64) -> shuttle::Config {
+    let mut cfg = shuttle::Config::new();
+    cfg.stack_size = 1 << 19;
+    cfg.failure_persistence = shuttle::FailurePersistence::None;
+    cfg.max_steps = shuttle::MaxSteps::FailAfter(max_steps as usize);
+    cfg.silence_warnings = true;
+    cfg
+}
+
+/// Classify an execution that ended with a panic out of the engine (task panic, deadlock, step
+/// budget) into a violation.
+fn failure_violation(property: &str, payload: &str) -> Violation {
+    let info = PANIC.with(|p| p.borrow_mut().take());
+    let roles: Vec<String> = simsync::sim::roles().iter().map(|(t, r)| format!("task{}={}", t, r.name())).collect();
+    let event = exec::seq();
+    if payload.starts_with("deadlock!") {
+        let prop = if property == "C12" || property == "C13" || property == "C15" { property } else { "C18" };
+        // which roles are blocked: parse "task N" ids out of shuttle's message
+        let mut blocked: BTreeSet<String> = BTreeSet::new();
+        let roles_map = simsync::sim::roles();
+        let mut rest = payload;
+        while let Some(pos) = rest.find("task ") {
+            rest = &rest[pos + 5..];
+            let num: String = rest.chars().take_while(|c| c.is_ascii_digit()).collect();
+            if let Ok(t) = num.parse::<usize>() {
+                let name = if t == 0 { "main".to_string() } else { roles_map.get(&t).map(|r| r.name().to_string()).unwrap_or_else(|| "caller".to_string()) };
+                blocked.insert(name);
+            }
+        }
+        let blocked: Vec<String> = blocked.into_iter().collect();
+        return Violation {
+            property: prop.to_string(),
+            signature: format!("{}/deadlock/blocked={}", prop, blocked.join("+")),
+            message: format!("{} [{}]", payload.lines().next().unwrap_or(""), roles.join(",")),
+            event,
+        };
+    }
+    if payload.starts_with("exceeded max_steps") {
+        let prop = if property == "C12" || property == "C13" || property == "C15" { property } else { "C18" };
+        return Violation {
+            property: prop.to_string(),
+            signature: format!("{}/step-budget", prop),
+            message: "run did not finish within the step budget (livelock?)".to_string(),
+            event,
+        };
+    }
+    let (role, file, line, message) = match info {
+        Some(i) => (i.role, norm_file(&i.file), i.line, i.message),
+        None => ("unknown".to_string(), String::new(), 0, payload.to_string()),
+    };
+    let prop = if property == "C18" { "C17" } else { property };
+    Violation {
+        property: prop.to_string(),
+        signature: format!("{}/panic/{}/{}/{}", prop, role, file.rsplit('/').next().unwrap_or(""), msg_class(&message)),
+        message: format!("panic in {} task at {}:{}: {}", role, file, line, message),
+        event,
+    }
+}
+
+fn payload_string(e: &Box<dyn std::any::Any + Send>) -> String {
+    if let Some(s) = e.downcast_ref::<&str>() {
+        s.to_string()
+    } else if let Some(s) = e.downcast_ref::<String>() {
+        s.clone()
+    } else {
+        "<non-string panic>".to_string()
+    }
+}
+
+fn arg<'a>(args: &'a [String], name: &str) -> Option<&'a str> {
+    args.iter().position(|a| a == name).and_then(|i| args.get(i + 1)).map(|s| s.as_str())
+}
+
+fn load_known(path: &str) -> Vec<KnownFinding> {
+    match std::fs::read_to_string(path) {
+        Ok(s) => serde_json::from_str::<Vec<KnownFinding>>(&s).unwrap_or_else(|e| {
+            eprintln!("HARNESS-ERROR: cannot parse {}: {}", path, e);
+            std::process::exit(2);
+        }),
+        Err(_) => vec![],
+    }
+}
+
+fn write_agg(path: &str, agg: &Aggregate) {
+    std::fs::write(path, serde_json::to_string(agg).unwrap()).expect("write aggregate");
+}
+
+fn cmd_run(args: &[String]) -> i32 {
+    let property = arg(args, "--property").expect("--property").to_string();
+    let verif_seed: u64 = arg(args, "--seed").unwrap_or("20240607").parse().expect("seed");
+    let runs: u64 = arg(args, "--runs").unwrap_or("1000").parse().expect("runs");
+    let offset: u64 = arg(args, "--offset").unwrap_or("0").parse().expect("offset");
+    let stride: u64 = arg(args, "--stride").unwrap_or("1").parse().expect("stride");
+    let from: u64 = arg(args, "--from").unwrap_or("0").parse().expect("from");
+    let out = arg(args, "--out").unwrap_or("/dev/null").to_string();
+    let known_path = arg(args, "--known").unwrap_or("/verif/known_findings.json").to_string();
+    let replays_dir = arg(args, "--replays").unwrap_or("/verif/replays").to_string();
+    let tree = arg(args, "--tree").unwrap_or("unknown").to_string();
+    let only_stratum = arg(args, "--stratum").map(|s| s.to_string());
+    let mut strata = props::plan(&property);
+    if let Some(name) = only_stratum {
+        strata.retain(|s| s.name == name);
+    }
+    if strata.is_empty() {
+        eprintln!("HARNESS-ERROR: no strata for property {}", property);
+        return 2;
+    }
+    let total_share = strata.iter().map(|s| s.share).sum();
+    let mut agg = Aggregate { property: property.clone(), next_index: from, ..Default::default() };
+    agg.determinism_digest = 0;
+    let work = Work {
+        property: property.clone(),
+        verif_seed,
+        runs,
+        offset,
+        stride,
+        next: from,
+        strata,
+        total_share,
+        known: load_known(&known_path),
+        replays_dir,
+        tree,
+    };
+    SHARED.with(|s| {
+        *s.borrow_mut() =
+            Some(Shared { work, agg, cur: None, stop: false, found: None, replay_mode: None, replay_result: None })
+    });
+    install_panic_hook();
+    let runner = shuttle::Runner::new(SimScheduler { driver: WorkDriver }, shuttle_config(200_000));
+    let result = panic::catch_unwind(panic::AssertUnwindSafe(|| runner.run(exec::body)));
+    match result {
+        Ok(_) => SHARED.with(|s| {
+            let mut g = s.borrow_mut();
+            let sh = g.as_mut().unwrap();
+            sh.agg.finished = sh.found.is_none();
+            write_agg(&out, &sh.agg);
+            if let Some((v, path)) = &sh.found {
+                println!("FOUND property={} signature={} replay={}", v.property, v.signature, path);
+                println!("  {}", v.message);
+                1
+            } else {
+                0
+            }
+        }),
+        Err(e) => {
+            // the execution engine's state is gone: report, persist, and let the orchestrator decide
+            let payload = payload_string(&e);
+            SHARED.with(|s| {
+                let mut g = s.borrow_mut();
+                let sh = g.as_mut().unwrap();
+                let cur = sh.cur.take().expect("failure outside a run");
+                let prepared = exec::take_current().expect("prepared scenario");
+                let mut sc = prepared.scenario;
+                let out_run = exec::take_output();
+                let rec = sched::peek_record();
+                if !out_run.recorded_ops.is_empty() {
+                    if sc.threads.is_empty() {
+                        sc.threads.push(vec![]);
+                    }
+                    sc.threads[0] = out_run.recorded_ops.clone();
+                }
+                let v = failure_violation(&sh.work.property, &payload);
+                sh.agg.evaluations += 1;
+                sh.agg.steps += rec.steps;
+                *sh.agg.per_stratum.entry(sc.stratum.clone()).or_insert(0) += 1;
+                let hh = history_hash(&out_run);
+                let known = known_match(&sh.work.known, &v).map(|k| k.id.clone());
+                if let Some(id) = known {
+                    *sh.agg.known_hits.entry(id).or_insert(0) += 1;
+                    write_agg(&out, &sh.agg);
+                    3
+                } else {
+                    let path = write_replay(sh, &sc, &rec, &v, hh, cur.index, cur.run_seed);
+                    sh.agg.violations.push(serde_json::json!({
+                        "property": v.property, "signature": v.signature, "message": v.message,
+                        "run_index": cur.index, "run_seed": cur.run_seed, "replay": path,
+                    }));
+                    write_agg(&out, &sh.agg);
+                    println!("FOUND property={} signature={} replay={}", v.property, v.signature, path);
+                    println!("  {}", v.message);
+                    1
+                }
+            })
+        }
+    }
+}
+
+/// Replay one file. Prints one machine-readable line:
+///   REPLAY result=<reproduced|different|clean|diverged> signature=<...> history=<hash>
+fn cmd_replay(args: &[String]) -> i32 {
+    let path = args.get(0).expect("replay file");
+    let lenient = args.iter().any(|a| a == "--lenient");
+    let text = std::fs::read_to_string(path).expect("read replay file");
+    let mut rf: ReplayFile = match serde_json::from_str(&text) {
+        Ok(r) => r,
+        Err(e) => {
+            eprintln!("HARNESS-ERROR: cannot parse replay file: {}", e);
+            return 2;
+        }
+    };
+    if lenient {
+        rf.scenario.sched.strict = false;
+    }
+    let property = rf.property.clone();
+    let expected_sig = rf.signature.clone();
+    let expected_hash = rf.history_hash.clone();
+    let work = Work {
+        property: property.clone(),
+        verif_seed: rf.verif_seed,
+        runs: 0,
+        offset: 0,
+        stride: 1,
+        next: 0,
+        strata: vec![],
+        total_share: 1,
+        known: vec![],
+        replays_dir: "/tmp".to_string(),
+        tree: String::new(),
+    };
+    SHARED.with(|s| {
+        *s.borrow_mut() = Some(Shared {
+            work,
+            agg: Aggregate::default(),
+            cur: None,
+            stop: false,
+            found: None,
+            replay_mode: Some(rf),
+            replay_result: None,
+        })
+    });
+    install_panic_hook();
+    let runner = shuttle::Runner::new(SimScheduler { driver: WorkDriver }, shuttle_config(200_000));
+    let result = panic::catch_unwind(panic::AssertUnwindSafe(|| runner.run(exec::body)));
+    let (violations, hh, diverged): (Vec<Violation>, u64, Option<String>) = match result {
+        Ok(_) => SHARED.with(|s| s.borrow_mut().as_mut().unwrap().replay_result.take().unwrap_or((vec![], 0, None))),
+        Err(e) => {
+            let payload = payload_string(&e);
+            let out_run = exec::take_output();
+            let rec = sched::peek_record();
+            let v = failure_violation(&property, &payload);
+            (vec![v], history_hash(&out_run), rec.diverged)
+        }
+    };
+    let hash = format!("{:016x}", hh);
+    if let Some(d) = diverged {
+        if !lenient {
+            println!("REPLAY result=diverged detail={:?}", d);
+            return 2;
+        }
+    }
+    if let Some(v) = violations.iter().find(|v| v.signature == expected_sig) {
+        let exact = hash == expected_hash;
+        println!("REPLAY result=reproduced signature={} history={} exact={}", v.signature, hash, exact);
+        println!("  {}", v.message);
+        return 1;
+    }
+    if let Some(v) = violations.first() {
+        println!("REPLAY result=different signature={} history={}", v.signature, hash);
+        println!("  {}", v.message);
+        return 1;
+    }
+    println!("REPLAY result=clean history={}", hash);
+    0
+}
+
+fn main() {
+    let args: Vec<String> = std::env::args().collect();
+    let code = match args.get(1).map(|s| s.as_str()) {
+        Some("run") => cmd_run(&args[2..]),
+        Some("replay") => cmd_replay(&args[2..]),
+        _ => {
+            eprintln!("usage: simcheck run|replay ...");
+            2
+        }
+    };
+    std::process::exit(code);
+}
